@@ -165,10 +165,26 @@ func (lineParser *LineParser) parseMarkup() (*ParseResult, error) {
 		}
 	}
 
+	// positions were measured in the untrimmed text: move them along with the text
+	untrimmedText := builder.String()
+	textWithoutLeadingSpace := strings.TrimLeftFunc(untrimmedText, unicode.IsSpace)
+	text := strings.TrimRightFunc(textWithoutLeadingSpace, unicode.IsSpace)
+	trimmedPrefixLength := utf8.RuneCountInString(untrimmedText) - utf8.RuneCountInString(textWithoutLeadingSpace)
+
 	return &ParseResult{
-		Text:       strings.TrimSpace(builder.String()),
-		Attributes: attributes,
+		Text:       text,
+		Attributes: shiftAttributes(attributes, trimmedPrefixLength, utf8.RuneCountInString(text)),
 	}, nil
+}
+
+// shiftAttributes moves attributes to the left by offset characters and keeps them within a text of textLength characters.
+func shiftAttributes(attributes []Attribute, offset, textLength int) []Attribute {
+	for i := range attributes {
+		start := min(max(attributes[i].Position-offset, 0), textLength)
+		end := min(max(attributes[i].Position+attributes[i].Length-offset, start), textLength)
+		attributes[i].Position, attributes[i].Length = start, end-start
+	}
+	return attributes
 }
 
 func (lineParser *LineParser) buildAttributesFromMarkers(markers []attributeMarker) ([]Attribute, error) {
